@@ -974,6 +974,11 @@ func (vc *VC) applyContract(fx *FuncCtx, st *State, fc *FuncContract, sig *types
 			st.setTaint("ensures clause of " + callee + " (" + e.Label + "): " + err.Error())
 			continue
 		}
+		if recordedFindings[callee+"#post:"+e.Label] {
+			// a postcondition recorded as not holding: callers learn nothing from it
+			vc.used["postcondition "+e.Label+" of "+callee+" is a recorded finding: not assumed at call sites"] = true
+			continue
+		}
 		if curProp != "" && len(e.Tags) > 0 && !containsStr(e.Tags, curProp) && !sharesTag(e.Tags, vc.fc) && hasQuantTerm(g) {
 			// a quantified fact established for another property: not needed here, and dropping an assumption is
 			// always sound; it keeps the queries of large callers small
